@@ -33,6 +33,7 @@ type renameInfo struct {
 	byKey map[string]*ssa.Function // "rel|recv|refname" -> current function
 	ref   map[string]string        // the reference table
 	conv  map[*ssa.Function]int    // +1: a reference method that is now a function taking the receiver first; -1: the reverse
+	cur   map[string]*ssa.Function // "rel|recv|name" -> function of the analysed tree
 	notes []string
 }
 
@@ -175,6 +176,7 @@ func (p *Program) renames() *renameInfo {
 	splitRef(ref)
 	ri.ref = ref
 	cur := map[string]*ssa.Function{}
+	ri.cur = cur
 	curSig := map[string]string{}
 	keyOf := map[*ssa.Function]string{}
 	for _, fn := range p.rawModuleFuncs() {
